@@ -9,4 +9,8 @@ cd harness
 for pkg in $(ls -d c[0-9][0-9] 2>/dev/null); do
   go1.26.8 test -c -tags verif -o ../.build/$pkg.test ./$pkg
 done
+# race-instrumented binaries used by the quick tier (C07 real-time tier, C20 concurrent tier)
+for pkg in c07 c20; do
+  go1.26.8 test -c -tags verif -race -o ../.build/$pkg.race.test ./$pkg
+done
 echo "setup ok"
